@@ -8,7 +8,7 @@ from concurrent.futures import ThreadPoolExecutor
 
 from vf.core import Report, Bounded, Violation, Ob, VERIF, REPO
 
-LEVEL = "exploration"
+LEVEL = "other"
 
 
 def run_worker(job):
@@ -18,13 +18,26 @@ def run_worker(job):
     for line in p.stdout.splitlines():
         if line.startswith("RESULT "):
             return json.loads(line[7:])
-    return {"problems": [f"worker crashed: {p.stderr[-600:]}"], "n": 0, "vlq": 0}
+    return {"problems": [], "crash": p.stderr[-1500:], "n": 0, "vlq": 0}
 
 
 def run(report: Report, tier, seed):
     report.trust("independent Base64-VLQ codec in checks/c15_worker.py (from the Source Map Revision 3 proposal)", "TEAL comment grammar of spec/avm.py")
-    report.assume("bounded stand-in only: the VLQ loops and the frame-selection logic (CPython frame introspection) are not under contract",
+    report.assume("under contract (pyvc): _base64vlq_encode / _base64vlq_decode against the Revision-3 VLQ definition, unbounded integers, any number of values; "
+                  "the round trip is the composition of the two contracts (encoder postcondition == decoder precondition)",
+                  "Python semantics assumed by the VCs: x & 31 = x mod 32, x >> 5 = floor(x / 32), x << s = x * 2**s (s >= 0), a | b = a + b on disjoint bit ranges",
+                  "not under contract (bounded stand-ins only): R3SourceMap.to_json / from_json delta bookkeeping and ';' ',' joining, frame selection (CPython frame introspection), "
+                  "TealMapItem construction, annotated TEAL",
                   "attribution to (file, line) is checked on one generated user module with constants in statement, operand and nested positions")
+    from vf.runner import run_contracts
+    from vf.core import use_repo
+    use_repo()
+    run_contracts(report, [("contracts.c15_vlq", "VlqEncode", "O15.4a"), ("contracts.c15_vlq", "VlqDecode", "O15.4b")])
+    from contracts.c15_vlq import alphabet_bijection
+    nb, bad = alphabet_bijection()
+    report.ob(Ob(id="O15.4c/alphabet-tables-inverse", function="pyteal.compiler.sourcemap._b64chars/_b64table", kind="E",
+                 status="refuted" if bad else "discharged", detail=f"{nb} sextets: _b64chars is the RFC 4648 alphabet and _b64table inverts it",
+                 model=bad[0] if bad else None, backend="enumeration on the real module globals"))
     n = 24 if tier == "quick" else 240
     per = 6 if tier == "quick" else 30
     items = [[seed * 100003 + 93000 + i, [4, 6, 8, 9, 10][i % 5]] for i in range(n)]
@@ -32,6 +45,9 @@ def run(report: Report, tier, seed):
     with ThreadPoolExecutor(max_workers=8) as ex:
         res = list(ex.map(run_worker, jobs))
     probs = [p for r in res for p in r["problems"]]
+    for r in res:
+        if r.get("crash"):   # a harness failure is not a verdict about pyteal
+            report.ob(Ob(id="O15.B/worker", function="checks/c15_worker.py", kind="B", status="error", detail="worker process crashed", model=r["crash"]))
     report.bounded.append(Bounded(function="Compilation.compile(with_sourcemap=True, annotate_teal=True)",
                                   contract="TEAL byte-identical with/without the map; one entry per TEAL line in order pointing at an existing line of an existing file; R3 JSON round trip; annotated TEAL minus comments == plain; constants attributed to their (file, line)",
                                   bound=f"{n} generated programs (seed {seed}) x versions 4..10 + one user module with 12 constants",
@@ -40,7 +56,16 @@ def run(report: Report, tier, seed):
                                   bound=f"every integer with |v| <= {jobs[0]['vlq_range']} + 2000 random tuples up to 2^40 + boundary values (per worker)",
                                   cases=sum(r["vlq"] for r in res), distinct_nontrivial=jobs[0]["vlq_range"] * 2, failures=0))
     report.sample({"vlq": {"values": [0, -1, 16, 1024], "encoded": "AADgBggC"}})
+    vlq_probs = [p for p in probs if p.startswith("VLQ")]
+
+    def search(fn, obs):
+        return {"input": vlq_probs[0], "what": vlq_probs[0]} if vlq_probs else None
+    report.settle_undecided(search)
+    report.settle_refuted(search)
     seen = set()
+    if any("vlq" in v.what for v in report.violations):
+        seen.add("vlq")
+        probs = [p for p in probs if not p.startswith("VLQ")]
     for p in probs:
         key = "sourcemap:" + p.split(":")[0].split(" v")[0][:40] if not p.startswith("VLQ") else "vlq"
         cls = p.split(": ", 1)[-1][:60]
